@@ -312,6 +312,12 @@ fn homomorphism(d: &mut Driver, tier: Tier, res: &mut Res) {
                         Outcome::Error { phase: crate::drv::Phase::Plan, .. } => {
                             res.unsupported += 1;
                         }
+                        Outcome::Error { msg, .. } if msg.contains("overflow") && (s.name == "sum" || s.name == "avg") => {
+                            // a fixed-width accumulator may overflow on an intermediate partial sum in one
+                            // arrival order and not in another; C12 admits "exact or fails", so an overflow
+                            // error is an admissible outcome of every arrangement (counted, not a verdict)
+                            res.outcomes.insert("sum-overflow-error-admissible".into());
+                        }
                         Outcome::Error { msg, .. } => {
                             // run-time error: must be the same under every split (checked by class)
                             if reference.is_some() {
